@@ -79,6 +79,7 @@ def meta_s2i(ctx, replay_path, nt, bad, label, p_keep=0.02, keep=300, dedupe=Fal
     if st["behaviours"] == 0:
         raise ToolError("TLC emitted no history for %s" % label)
     ctx.cov["impl_runs"].append({"kind": "spec->impl history replay (%s)" % label, "behaviours": st["behaviours"],
+                                 "run_while_thread_unwinding": st.get("in_unwinding_context", 0),
                                  "calls_compared": st["calls"], "matched_model": st["matched"],
                                  "mismatch": st["mismatch"], "validated_by_TLC": st["validated_sample"] + st["mismatch"]})
     ctx.cov["traces_validated_against_impl"] += st["behaviours"]
@@ -102,6 +103,7 @@ def meta_i2s(ctx, count, length, nt, bad, seed_off=0):
     st = run_bin(ctx, "meta", ["random", "--out", out, "--seed", ctx.seed * 1000 + seed_off, "--count", count,
                                "--len", length, "--nt", nt, "--bad", ",".join(str(b) for b in bad)], features=FEATURES)
     ctx.cov["impl_runs"].append({"kind": "impl->spec random histories", "histories": st["histories"],
+                                 "run_while_thread_unwinding": st.get("in_unwinding_context", 0),
                                  "events": st["events"], "outcomes": st["outcomes"], "nt": nt, "bad": list(bad)})
     ctx.cov["traces_validated_against_impl"] += st["histories"]
     for s in st["samples"][:1]:
@@ -138,7 +140,7 @@ def check_C17(ctx):
         "non-nightly MetaTable (function-pointer table); the nightly DynMetadata variant is not built",
         "identity of objects is observed as equality of self-reported addresses (renumbered densely); "
         "methods of the concrete type are observed through a per-type tag and a per-type bump function",
-        "after a next() that panicked the iterator is not used again",
+        "a share of the histories (directed, simulated, random) is executed from a destructor while the thread is unwinding",
     ]
 
 
